@@ -268,9 +268,10 @@ def _bracket(inner, style, needed):
     kinds = style.bracket_kinds if style.rnd else ("(",)
     kind = style.rnd.choice(kinds) if style.rnd else "("
     if kind == "^":
-        for d in "/?\\:":
-            if d not in inner:
-                return f"^{d}{inner}{d}"
+        free = [d for d in "/?\\:" if d not in inner]
+        if free:
+            d = style.rnd.choice(free)
+            return f"^{d}{inner}{d}"
         kind = "<"
     if kind == "<":
         if inner.endswith(">"):
